@@ -88,6 +88,10 @@ theorem inv_step (s : Reg) (op : Op) (h : InvR s) : InvR (step repaired s op).1 
     · exact h
     · exact h
     · exact renameSourceR_invR s a b si hi hn hne h
+  | insertDemand n idx p =>
+    rcases insertDemand_cases s n idx p with e | ⟨i, hi, hk, e⟩ <;> simp only [step, e]
+    · exact h
+    · exact insertDemandR_invR s n idx p i hi hk h
   | clearDemands n =>
     rcases clearDemands_cases s n with e | ⟨i, hi, hk, e⟩ <;> simp only [step, e]
     · exact h
@@ -223,6 +227,7 @@ theorem not_ok_unchanged (s : Reg) (op : Op) (h : (step repaired s op).2 ≠ .ok
   | assignDemand n p => rcases assignDemand_cases s n p with e | ⟨_, _, _, _, e⟩ <;> simp_all [step]
   | renameSource a b => rcases renameSource_cases s a b with e | e | ⟨_, _, _, _, e⟩ <;> simp_all [step]
   | clearDemands n => rcases clearDemands_cases s n with e | ⟨_, _, _, e⟩ <;> simp_all [step]
+  | insertDemand n idx p => rcases insertDemand_cases s n idx p with e | ⟨_, _, _, e⟩ <;> simp_all [step]
   | addTank n c => rcases addTank_cases s n c with e | ⟨_, e⟩ <;> simp_all [step]
   | addReservoir n p => rcases addReservoir_cases s n p with e | ⟨_, e⟩ <;> simp_all [step]
   | addPipe n a b => rcases addPipe_cases s n a b with e | ⟨_, _, _, e⟩ <;> simp_all [step]
@@ -537,6 +542,10 @@ theorem raw_insert_demand_breaks_inv :
     ¬ Inv (insertDemandRaw (run repaired init [.addPattern 9, .addJunction 1 none false]) 1 0 (some 9)).1 := by
   decide
 
+/-- ... which is what `insert` / `append` / `__setitem__` did before fixes/C14-demands-keep-pattern-usage-in-step (variant `round6`) -/
+theorem round6_cex_insert_demand : ¬ Inv (run round6 init [.addPattern 9, .addJunction 1 none false, .insertDemand 1 0 (some 9)]) := by
+  decide
+
 /-! ### what the OrderedSet / OrderedDict theorems discharge
 
 The registry model represents every `OrderedSet` (typed sets, usage records) by a list and every `OrderedDict` by an association
@@ -570,7 +579,10 @@ curve type.  The model's operations read the registry of every usage call off `s
 So releasing a pattern through the CURVE registry (the first C14 defect), a dropped or an added bookkeeping call, a changed key
 expression or a typed set that is no longer discarded breaks one of these four theorems, not only the differential run. -/
 
-theorem usage_calls_as_modelled : Gen.RegistryCalls.usageCalls = expectedUsageCalls := by decide
+/-- the second alternative is the tree before fixes/C14-demands-keep-pattern-usage-in-step.patch (no `Demands._edit`); it goes once
+that patch is in the tree -/
+theorem usage_calls_as_modelled :
+    Gen.RegistryCalls.usageCalls = expectedUsageCalls ∨ Gen.RegistryCalls.usageCalls = expectedUsageCallsBeforeDemandsSync := by decide
 theorem typed_adds_as_modelled : Gen.RegistryCalls.typedAdds = expectedTypedAdds := by decide
 theorem typed_discards_as_modelled : Gen.RegistryCalls.typedDiscards = expectedTypedDiscards := by decide
 theorem curve_type_sets_as_modelled : Gen.RegistryCalls.curveTypeSets = expectedCurveTypeSets := by decide
